@@ -658,7 +658,8 @@ unsafe extern "C" fn handler(sig: c_int, info: *mut siginfo_t, ctx: *mut c_void)
                         0x22 => {
                             ev.kind = Kind::WrCr;
                             ev.b = g[GMAP[gpr]] as u64;
-                            r.cr[n] = ev.b;
+                            // MOV to CR3 does not store bit 63 (it only selects "no flush")
+                            r.cr[n] = if n == 3 { ev.b & !(1u64 << 63) } else { ev.b };
                         }
                         0x21 => {
                             ev.kind = Kind::RdDr;
